@@ -532,7 +532,7 @@ theorem paragraph_advanced {test : Test} (ht : TestPure test) {fuel : Nat} {s s'
   refine ⟨⟨?_, ?_, ?_, ?_, ?_, ?_, ?_⟩, ?_, ?_⟩ <;> simp [BState.push, h1] <;> omega
 
 theorem lheading_advanced {test : Test} (ht : TestPure test) {fuel : Nat} {s s' : BState}
-    (h : lheadingRule test fuel s false = .ok (true, s')) (hl : s.line < s.lineMax) :
+    (h : lheadingRule test fuel s false = .ok (true, s')) (_hl : s.line < s.lineMax) :
     Advanced' s s' := by
   unfold lheadingRule at h
   crack h
@@ -1491,5 +1491,63 @@ theorem block_rule_progress_list {tok : Tok} {test : Test} (hk : TokSpec tok) (h
     {fuel : Nat} {s s' : BState} (h : listRule tok test fuel s false = .ok (true, s'))
     (hl : s.line < s.lineMax) (hT : TableOk s) : s.line < s'.line ∧ s'.line ≤ s.lineMax :=
   ⟨(list_advanced hk ht h hl).lt, (list_advanced hk ht h hl).le hT⟩
+
+
+/-! ## 8. non-vacuity: the hypotheses of the theorems above hold on concrete runs -/
+
+/-- a configuration for examples: the nine rules in stock order, no entities, identity case tables -/
+def exCfg : Cfg :=
+  { maxNesting := 100,
+    chain := [.code, .fence, .blockquote, .hr, .list, .reference, .heading, .lheading, .paragraph],
+    lookup := fun _ => none, L := fun c => [c], U := fun c => [c] }
+
+/-- verdict and `line` of a result -/
+def verdictLine : Res → Option (Bool × Nat)
+  | .ok (b, s) => some (b, s.line)
+  | .error _ => none
+
+def lineOf : Except Panic BState → Option Nat
+  | .ok s => some s.line
+  | .error _ => none
+
+section examples
+/-- `"a\n***\n# h\n    c\n```\nf\n```\n> q\nlazy\n- i\n- j\n\n[r]: /u\nt\n===\np"` -/
+def exDoc : List Char :=
+  ['a', '\n', '*', '*', '*', '\n', '#', ' ', 'h', '\n', ' ', ' ', ' ', ' ', 'c', '\n',
+   '`', '`', '`', '\n', 'f', '\n', '`', '`', '`', '\n', '>', ' ', 'q', '\n', 'l', 'a', 'z', 'y', '\n',
+   '-', ' ', 'i', '\n', '-', ' ', 'j', '\n', '\n', '[', 'r', ']', ':', ' ', '/', 'u', '\n',
+   't', '\n', '=', '=', '=', '\n', 'p']
+
+def exAt (line : Nat) : BState := { BState.fresh exDoc .root [] with line := line }
+
+-- each of the nine rules answers `true` in real mode somewhere in `exDoc` and moves `line` forward
+-- (hypotheses of `block_rule_progress_*` / `ruleAt_progress`), …
+example : verdictLine (ruleAt exCfg 20 .paragraph (exAt 0) false) = some (true, 1) := by decide +kernel
+example : verdictLine (ruleAt exCfg 20 .hr (exAt 1) false) = some (true, 2) := by decide +kernel
+example : verdictLine (ruleAt exCfg 20 .heading (exAt 2) false) = some (true, 3) := by decide +kernel
+example : verdictLine (ruleAt exCfg 20 .code (exAt 3) false) = some (true, 4) := by decide +kernel
+example : verdictLine (ruleAt exCfg 20 .fence (exAt 4) false) = some (true, 7) := by decide +kernel
+example : verdictLine (ruleAt exCfg 20 .blockquote (exAt 7) false) = some (true, 9) := by decide +kernel
+example : verdictLine (ruleAt exCfg 20 .list (exAt 9) false) = some (true, 12) := by decide +kernel
+example : verdictLine (ruleAt exCfg 20 .reference (exAt 12) false) = some (true, 13) := by decide +kernel
+example : verdictLine (ruleAt exCfg 20 .lheading (exAt 13) false) = some (true, 15) := by decide +kernel
+-- … the five that have a silent mode answer `true` there too, without moving (`silent_pure_*`,
+-- `silent_implies_real_*`), …
+example : verdictLine (ruleAt exCfg 20 .hr (exAt 1) true) = some (true, 1) := by decide +kernel
+example : verdictLine (ruleAt exCfg 20 .heading (exAt 2) true) = some (true, 2) := by decide +kernel
+example : verdictLine (ruleAt exCfg 20 .fence (exAt 4) true) = some (true, 4) := by decide +kernel
+example : verdictLine (ruleAt exCfg 20 .blockquote (exAt 7) true) = some (true, 7) := by decide +kernel
+example : verdictLine (ruleAt exCfg 20 .list (exAt 9) true) = some (true, 9) := by decide +kernel
+-- … a rule that answers `false` (`real_false_same_*`), the list rule's extra silent-mode condition
+-- (`"2. x"` cannot interrupt a paragraph, but is a list in real mode), …
+example : verdictLine (ruleAt exCfg 20 .hr (exAt 0) false) = some (false, 0) := by decide +kernel
+example : verdictLine (listRule (tokenize exCfg 8) (testRules exCfg 8) 9
+    (BState.fresh ['2', '.', ' ', 'x'] .root []) true) = some (false, 0) := by decide +kernel
+example : verdictLine (listRule (tokenize exCfg 8) (testRules exCfg 8) 9
+    (BState.fresh ['2', '.', ' ', 'x'] .root []) false) = some (true, 1) := by decide +kernel
+-- … and the tokenizer runs to `line_max` (`tokenize_progress`, `tableOk_fresh`).
+example : lineOf (tokenize exCfg 30 (BState.fresh exDoc .root [])) = some 16 := by decide +kernel
+example : (BState.fresh exDoc .root []).lineMax = 16 := by decide +kernel
+end examples
 
 end MdIt.Block
